@@ -126,3 +126,18 @@ Theorem C03_field_dice_untouched :
   forall ax, In ax caxes -> index_of ax data_axes 0 = None.
 Proof. exact dice_none. Qed.
 Print Assumptions C03_field_dice_untouched.
+
+(* Subspacing a 1-d construct: its two-vertex bounds are reversed exactly when a
+   slice selects the cells in descending order; bounds of cells with another
+   number of vertices (polygons) are never reordered. *)
+Theorem C03_bounds_reverse :
+  forall size bsize a b st l,
+  slice_positions size a b (Some st) = Some l -> (2 <= length l)%nat ->
+  (reverse_bounds 2 size bsize (PSlice a b (Some st)) = true <-> nth 1 l 0 < nth 0 l 0).
+Proof. exact reverse_bounds_slice. Qed.
+Print Assumptions C03_bounds_reverse.
+
+Theorem C03_bounds_polygon_kept :
+  forall nb size bsize p, nb <> 2 -> reverse_bounds nb size bsize p = false.
+Proof. exact reverse_bounds_polygon. Qed.
+Print Assumptions C03_bounds_polygon_kept.
